@@ -396,7 +396,11 @@ func (r *Runner) Step() {
 		if !r.Cfg.Lag {
 			w.DeliverAll()
 		}
+		if r.chance(0.3) {
+			w.CatchUp = true
+		}
 		r.Reconcile(set)
+		w.CatchUp = false
 	case x < 55:
 		res := cachedRes[r.Rng.Intn(3)]
 		n := w.Pending(res)
@@ -455,7 +459,8 @@ func (r *Runner) planFault() {
 	}
 	r.W.Srv.ClearFaults()
 	r.W.Srv.AddFault(f)
-	r.logf("fault plan: call #%d of the next reconcile: %s/%s", f.Nth, f.Kind, f.Mode)
+	r.W.CatchUp = r.chance(0.5)
+	r.logf("fault plan: call #%d of the next reconcile: %s/%s (caches catch up mid-reconcile: %v)", f.Nth, f.Kind, f.Mode, r.W.CatchUp)
 }
 
 func (r *Runner) userEdit() {
